@@ -26,6 +26,9 @@ def _check(args):
     t0 = time.time()
     try:
         mod = importlib.import_module(f"cmverif.checks.{prop.lower()}")
+        from . import drive
+
+        drive.pool()  # fork the workers before this process ever starts a thread or runs the code under test
         level, coverage, violations, assumptions = mod.explore(tier, seed)
         rc = core.finish(prop, tier, seed, level, coverage, violations, t0, assumptions)
     except core.HarnessError as e:
